@@ -9,5 +9,5 @@ CONSTANTS
 INIT Init
 NEXT Next
 VIEW view
-INVARIANTS TypeOK InvAtMostOnce InvExactlyOnce InvNoOver InvTraffic InvNoPanic ClosedError InvLeakFree
+INVARIANTS TypeOK InvAtMostOnce InvExactlyOnce InvNoOver InvTraffic InvNoPanic ClosedError InvLeakFree InvConnOnce
 CHECK_DEADLOCK FALSE
